@@ -254,6 +254,9 @@ Rewrites(ns) ==
   \cup {RW("argument-names", SiteKind(ns, i), SetAt(ns, i, [ns[i] EXCEPT !.args = Append(@, Arg("zz", LitI(1)))])) : i \in KnownFields(ns)}
   \cup {RW("argument-names", "directive-argument", SetAt(ns, i, [ns[i] EXCEPT !.dirs = Append(@, DirG("skip", <<Arg("if", LitB(FALSE)), Arg("zz", LitI(1))>>))])) : i \in {j \in SelNodes(ns) : ns[j].dirs = <<>>}}
   \cup {RW("argument-uniqueness", SiteKind(ns, i), SetAt(ns, i, [ns[i] EXCEPT !.args = Append(@, @[1])])) : i \in {j \in KnownFields(ns) : ns[j].args # <<>>}}
+  \* the duplicate is not adjacent to the original:  f(a: 1, b: "q", a: 3)
+  \cup {RW("argument-uniqueness", "duplicate-not-adjacent", SetAt(ns, i, [ns[i] EXCEPT !.args = <<Arg("a", LitI(1)), Arg("b", LitS("q")), Arg("a", LitI(3))>>])) :
+           i \in {j \in KnownFields(ns) : ns[j].name = "f"}}
   \cup {RW("argument-uniqueness", "directive-argument", SetAt(ns, i, [ns[i] EXCEPT !.dirs = Append(@, DirG("include", <<Arg("if", LitB(TRUE)), Arg("if", LitB(TRUE))>>))])) : i \in {j \in SelNodes(ns) : ns[j].dirs = <<>>}}
   \cup {RW("required-arguments", SiteKind(ns, i), SetAt(ns, i, [ns[i] EXCEPT !.args = <<>>])) : i \in {j \in KnownFields(ns) : \E d \in 1..Len(FDefOf(ns[j]).args) : IsNN(FDefOf(ns[j]).args[d].type)}}
   \cup {RW("required-arguments", "directive-argument", SetAt(ns, i, [ns[i] EXCEPT !.dirs = Append(@, DirG("skip", <<>>))])) : i \in {j \in SelNodes(ns) : ns[j].dirs = <<>>}}
@@ -284,6 +287,9 @@ Rewrites(ns) ==
                        <<Mk("FRAG", 0, "Loop", "", ns[f].cond, <<>>, <<>>, "", ""), [Mk("S", 0, ns[f].name, "", "", <<>>, <<>>, "", ns[f].cond) EXCEPT !.parent = 1]>>)) : f \in Frags(ns)}
   \cup {RW("fragment-spread-is-possible", SiteKind(ns, i), AddChildWithLeaf(ns, i, Mk("I", 0, "", "", c, <<>>, <<>>, "", "T"), NewF("__typename", c))) :
            i \in {j \in CompFields(ns) : Named(FDefOf(ns[j]).type) = "T"}, c \in {"C", "P", "Query"}}
+  \* an abstract type condition inside a selection of another abstract type with no object type in common (V = C, P = A | B)
+  \cup {RW("fragment-spread-is-possible", "abstract-in-disjoint-abstract", AddChildWithLeaf(ns, i, Mk("I", 0, "", "", "V", <<>>, <<>>, "", "P"), NewF("__typename", "V"))) :
+           i \in {j \in CompFields(ns) : Named(FDefOf(ns[j]).type) = "P"}}
   \cup {RW("fragment-spread-is-possible", "in-inline-fragment", AddChildWithLeaf(ns, i, Mk("I", 0, "", "", "C", <<>>, <<>>, "", "A"), NewF("__typename", "C"))) :
            i \in {j \in Ids(ns) : ns[j].k = "I" /\ ns[j].cond = "A"}}
   \cup {RW("fragment-spread-is-possible", "named-spread", AppendNodes(AddChildLast(ns, i, Mk("S", 0, "Imp", "", "", <<>>, <<>>, "", "T")),
